@@ -3202,26 +3202,55 @@ def rule_join(ck, job):
 def rule_count_wrap(ck, facts, nfield):
     R = "E13.worker-count-wrap"
     cls_fns = [f for f in facts.functions if "::Worker<" not in f.cls and re.search(r"DomainAssembler<", f.cls) and f.cfg is not None]
+    assigns = lambda f: [n for n in f.nodes() if n.get("k") == "Assign" and n.get("op") == "=" and this_field(n["lhs"]) == nfield and strip(n["rhs"]).get("k") != "Int"]
+
+    def expanded(e, inits, depth=0):
+        """nodes of e, and of the initialisers of the single-definition locals it mentions"""
+        for x in walk(e):
+            yield x
+            if x.get("k") == "Ref" and x.get("dk") == "local" and x.get("d") in inits and depth < 4:
+                yield from expanded(inits[x["d"]], inits, depth + 1)
     for fn in cls_fns:
-        asg = [n for n in fn.nodes() if n.get("k") == "Assign" and n.get("op") == "=" and this_field(n["lhs"]) == nfield and strip(n["rhs"]).get("k") != "Int"]
+        asg = assigns(fn)
         if not asg:
             continue
         fx = FX(fn)
-        for lp in fn.nodes():
-            ln = loop_normal(fx, lp) if lp.get("k") in ("For", "While") else None
+        # candidate loops: in the assigning function itself, and in the non-virtual member helpers it
+        # calls (a phase of the builder split off into its own function sees the count through a
+        # member read or a const local)
+        cands = [(fn, fx, lp, None) for lp in fn.nodes() if lp.get("k") in ("For", "While")]
+        for c in fn.nodes():
+            if c.get("k") == "MCall" and (c.get("obj") or {}).get("k") == "This" and c.get("i") is not None and fx.cfg.block_of(c["i"]) is not None:
+                h = find_method(fn.cls, c)
+                if h is not None and h.cfg is not None and not h.d.get("virtual") and h.full != fn.full and not assigns(h):
+                    hx = FX(h)
+                    cands += [(h, hx, lp, c) for lp in h.nodes() if lp.get("k") in ("For", "While")]
+        for lfn, lfx, lp, call in cands:
+            ln = loop_normal(lfx, lp)
             if ln is None or ln[1] is None:
                 continue
-            if not any(this_field(x) == nfield and x.get("k") == "Member" for x in walk(ln[1])):
+            inits = dict(single_def_inits(fn))
+            inits.update(single_def_inits(lfn))
+            if not any(this_field(x) == nfield and x.get("k") == "Member" for x in expanded(ln[1], inits)):
                 continue
-            if not any(x.get("k") == "Bin" and x["op"] == "-" and is_unsigned(fn.ntype(x)) for x in walk(ln[1])):
+            if not any(x.get("k") == "Bin" and x["op"] == "-" and is_unsigned(lfn.ntype(x)) for x in walk(ln[1])):
                 continue
-            ipos = fx.pos(loop_start_stmt(fx, lp))
-            conds = path_conditions(fx, ipos[0]) if ipos else []
-            doms = [a for a in asg if fx.dominates(fx.pos(a), ipos)]
+            start = loop_start_stmt(lfx, lp)
+            ipos = lfx.pos(start) if start is not None else None
+            if ipos is None:
+                continue
+            # guards: (function, condition, required truth); position of the count's last assignment
+            # relative to the loop = relative to the helper call for a loop inside a helper
+            anchor = fx.pos(call) if call is not None else ipos
+            conds = [(fn, c_, w_) for c_, w_ in path_conditions(fx, anchor[0])]
+            if call is not None:
+                conds += [(lfn, c_, w_) for c_, w_ in path_conditions(lfx, ipos[0])]
+            doms = [a for a in asg if fx.dominates(fx.pos(a), anchor)]
+            where = lfn.name if call is None else "%s->%s" % (fn.name, lfn.name)
             free_f, free_s = set(), set()
-            for e in [ln[1]] + [c for c, _ in conds] + [a["rhs"] for a in doms]:
-                for x in walk(e):
-                    if x.get("k") == "Member" and this_field(x) and "vector" not in fn.ntype(x) and is_unsigned(fn.ntype(x)):
+            for f_, e in [(lfn, ln[1])] + [(f_, c) for f_, c, _ in conds] + [(fn, a["rhs"]) for a in doms]:
+                for x in expanded(e, inits):
+                    if x.get("k") == "Member" and this_field(x) and "vector" not in f_.ntype(x) and is_unsigned(f_.ntype(x)):
                         free_f.add(this_field(x))
                     if x.get("k") == "MCall" and x.get("n") == "size" and this_field(x.get("obj")):
                         free_s.add(this_field(x.get("obj")))
@@ -3231,17 +3260,19 @@ def rule_count_wrap(ck, facts, nfield):
             bad = []
             total = 0
             uneval = []
-            for c_, _w in conds:
+            for f_, c_, _w in conds:
                 try:
-                    ev(fn, c_, Env(fields={f_: 1 for f_ in free_f + [nfield]}, sizes={s_: 1 for s_ in free_s}))
+                    e0 = Env(fields={x_: 1 for x_ in free_f + [nfield]}, sizes={s_: 1 for s_ in free_s})
+                    e0.inits = inits
+                    ev(f_, c_, e0)
                 except Unknown:
-                    if relevant_condition(c_, set(free_f) | {nfield}, set()):
+                    if relevant_condition(c_, set(free_f) | {nfield}, set()) or any(this_field(x) == nfield for x in expanded(c_, inits)):
                         uneval.append(render(c_))
             for vals in itertools.product(range(NMAX + 2), repeat=len(free_f) + len(free_s)):
                 env = Env(fields=dict(zip(free_f, vals)), sizes=dict(zip(free_s, vals[len(free_f):])))
-                env.inits = single_def_inits(fn)
+                env.inits = inits
                 try:
-                    if any(bool(ev(fn, c, env)) != want for c, want in conds if not any(this_field(x) == nfield for x in walk(c))):
+                    if any(bool(ev(f_, c, env)) != want for f_, c, want in conds if not any(this_field(x) == nfield for x in expanded(c, inits))):
                         continue
                 except Unknown:
                     pass
@@ -3249,9 +3280,9 @@ def rule_count_wrap(ck, facts, nfield):
                     if doms:
                         env.fields[nfield] = ev(fn, doms[-1]["rhs"], env)
                     feasible = True
-                    for c, want in conds:
+                    for f_, c, want in conds:
                         try:
-                            if bool(ev(fn, c, env)) != want:
+                            if bool(ev(f_, c, env)) != want:
                                 feasible = False
                         except Unknown:
                             pass
@@ -3259,29 +3290,42 @@ def rule_count_wrap(ck, facts, nfield):
                         continue
                     total += 1
                     env.wrapped = []
-                    v0 = ev(fn, ln[1], env)
+                    v0 = ev(lfn, ln[1], env)
                     if env.wrapped:
                         env.locs[ln[0]] = v0
                         try:
-                            enters = bool(ev(fn, ln[2], env))
+                            enters = bool(ev(lfn, ln[2], env))
                         except Unknown:
                             enters = True
                         if enters:
                             bad.append("%s, %s => %s = %d: `%s` wraps to %d and the loop body runs" % (
                                 ", ".join("%s=%d" % kv for kv in env.fields.items() if kv[0] != nfield), ", ".join("%s.size()=%d" % kv for kv in env.sizes.items()), nfield, env.fields.get(nfield, -1), render(ln[1]), v0))
                 except Unknown as e:
-                    ck.incomplete(R, "%s: %s" % (fn.name, e))
+                    ck.incomplete(R, "%s: %s" % (where, e))
                     bad = None
                     break
             if bad is None:
                 continue
             if bad and uneval:
-                ck.incomplete(R, "%s: `%s` may wrap (%s), but the dominating guard(s) %s could not be evaluated" % (fn.name, render(ln[1]), bad[-1], uneval))
+                ck.incomplete(R, "%s: `%s` may wrap (%s), but the dominating guard(s) %s could not be evaluated" % (where, render(ln[1]), bad[-1], uneval))
                 continue
-            ck.ob(R, "%s/for-init(%s)" % (fn.name, render(ln[1])), not bad,
-                  "the loop at line %s starts at the unsigned value `%s`; admissible state %s (one of %d): the wrapped index is used (out-of-range .at() -> uncaught std::out_of_range, compile() terminates)" % (lp.get("l"), render(ln[1]), bad[-1], len(bad)) if bad
-                  else "`%s` cannot wrap in the %d admissible states enumerated (values <= %d)" % (render(ln[1]), total, NMAX + 1),
-                  fn.file, lp.get("l"))
+            txt = render(ln[1])
+
+            def unalias(node):
+                # a const local standing for the count member is spelled as the member in the key
+                if isinstance(node, list):
+                    return [unalias(x) for x in node]
+                if not isinstance(node, dict):
+                    return node
+                if node.get("k") == "Ref" and node.get("dk") == "local" and node.get("d") in inits and this_field(inits[node["d"]]) == nfield:
+                    return strip(inits[node["d"]])
+                return {k_: (unalias(v_) if isinstance(v_, (dict, list)) else v_) for k_, v_ in node.items()}
+            key_expr = render(unalias(ln[1]))
+            ck.ob(R, "%s/for-init(%s)" % (fn.name, key_expr), not bad,
+                  "the loop at line %s%s starts at the unsigned value `%s`; admissible state %s (one of %d): the wrapped index is used (out-of-range .at() -> uncaught std::out_of_range, compile() terminates)" % (
+                      lp.get("l"), "" if call is None else " of %s (called at line %s)" % (lfn.name, call.get("l")), txt, bad[-1], len(bad)) if bad
+                  else "`%s`%s cannot wrap in the %d admissible states enumerated (values <= %d)" % (txt, "" if call is None else " in %s" % lfn.name, total, NMAX + 1),
+                  lfn.file, lp.get("l"))
 
 
 # -------------------------------------------------------------------------------------------------
@@ -3547,29 +3591,47 @@ def updates_of(facts_by_full, fn, depth=0):
             u = idiom.get(id(n), u)
             out.append((u[0], u[1], u[2], n.get("l")))
             continue
-        if n.get("k") in ("Call", "MCall") and n.get("a") and not re.search(r"(^|::)(max|min|abs|sqr|sqrt)$", (n.get("callee") or "").split("<")[0]):
-            h = facts_by_full.get(n.get("cfull") or "")
+        if n.get("k") in ("Call", "MCall") and not re.search(r"(^|::)(max|min|abs|sqr|sqrt)$", (n.get("callee") or "").split("<")[0]):
+            on_this = n.get("k") == "MCall" and strip(n.get("obj") or {}).get("k") == "This"
             pts = [fn.type(t) or "" for t in n.get("pt", [])]
-            refs = [i for i, t in enumerate(pts) if t.rstrip().endswith("&") and not t.lstrip().startswith("const") and i < len(n["a"])]
-            if not refs:
+            refs = [i for i, t in enumerate(pts) if t.rstrip().endswith("&") and not t.lstrip().startswith("const") and i < len(n.get("a", []))]
+            gets_obj = any(strip(a).get("k") == "This" or (strip(a).get("k") == "Un" and strip(a).get("op") == "*" and strip(strip(a)["e"]).get("k") == "This") or
+                           (strip(a).get("k") == "Ref" and strip(a).get("dk") == "param" and fn.cls and fn.cls in (fn.ntype(strip(a)) or "")) for a in n.get("a", []))
+            if not (on_this or refs or gets_obj):
                 continue
-            if h is None or h.body is None or depth >= 2 or len(h.params) != len(n["a"]):
+            h = facts_by_full.get(n.get("cfull") or "")
+            if h is None or h.body is None or depth >= 2 or len(h.params) != len(n.get("a", [])) or h.d.get("virtual") or h.full == fn.full:
+                # the effect of this callee on the objects it receives is not known
                 for i in refs:
                     out.append((n["a"][i], "UNKNOWN", None, n.get("l")))
+                if on_this or gets_obj:
+                    out.append((None, "UNFOLLOWED", n, n.get("l")))
                 continue
-            pidx = {p_["d"]: i for i, p_ in enumerate(h.params)}
+            # inline the callee's effects with its parameters replaced by the caller's arguments (the
+            # callee's `this` is the caller's `this` for member helpers called on this)
+            if n.get("k") == "MCall" and not on_this and not h.d.get("static"):
+                continue
+            bind = {p_["d"]: strip(a_) for p_, a_ in zip(h.params, n.get("a", []))}
             for tgt, op, contrib, l in updates_of(facts_by_full, h, depth + 1):
-                rt, pt_ = elem_root(tgt)
-                if rt is None or rt.get("k") != "Ref" or rt.get("d") not in pidx:
+                if tgt is None:
+                    out.append((tgt, op, contrib, n.get("l")))
+                    continue
+                rt, _pt = elem_root(tgt)
+                if rt is not None and rt.get("k") == "Ref" and rt.get("dk") == "local":
                     continue            # local of the helper
-                i = pidx[rt["d"]]
-                c_arg = None
-                if contrib is not None:
-                    rc, pc = elem_root(contrib)
-                    if rc is not None and rc.get("k") == "Ref" and rc.get("d") in pidx and pc == pt_:
-                        c_arg = n["a"][pidx[rc["d"]]]
-                out.append((n["a"][i], op if (contrib is None or c_arg is not None or op in ("RESET",)) else "SET", c_arg, n.get("l")))
+                out.append((subst_params(tgt, bind), op, subst_params(contrib, bind) if contrib is not None else None, n.get("l")))
     return out
+
+
+def subst_params(node, bind):
+    """copy of an expression tree with the parameter references of `bind` replaced by argument trees"""
+    if isinstance(node, list):
+        return [subst_params(x, bind) for x in node]
+    if not isinstance(node, dict):
+        return node
+    if node.get("k") == "Ref" and node.get("dk") == "param" and node.get("d") in bind:
+        return bind[node["d"]]
+    return {k_: (subst_params(v_, bind) if isinstance(v_, (dict, list)) else v_) for k_, v_ in node.items()}
 
 
 def top_args(t):
@@ -3623,7 +3685,15 @@ def rule_reduction(ck, extra, tag):
         ctor = next((f for f in facts.functions if f.cls == cb.cls and f.d.get("ctor") and f.d.get("inits")), None)
         inits = {i["member"]: i.get("init") for i in (ctor.d.get("inits") or []) if i.get("member")} if ctor is not None else {}
         job_level = lambda m: m in inits and inits[m] is not None and any(x.get("k") == "Ref" and x.get("dk") == "param" for x in walk(inits[m]))
-        sts = (cb.body or {}).get("s", [])
+        sts = []
+        for st in (cb.body or {}).get("s", []):
+            # a zero-argument member helper of the task is replaced by its statements
+            st_ = strip(st)
+            h = by_full.get(st_.get("cfull") or "") if st_.get("k") == "MCall" and strip(st_.get("obj") or {}).get("k") == "This" and not st_.get("a") else None
+            if h is not None and h.cls == cb.cls and h.body is not None and not h.d.get("virtual"):
+                sts.extend(h.body.get("s", []))
+            else:
+                sts.append(st)
         if sts:
             # Worker code calls combine() only `if(task->need_combine)`
             if cb.cls not in flags:
@@ -3659,9 +3729,16 @@ def rule_reduction(ck, extra, tag):
         ctag = "%s[value=%s]" % (short(cls).split("<")[0], targs[1].replace(" ", "") if len(targs) > 1 else ",".join(targs))
         other = g.params[0]["d"]
         field_of = lambda n: (n.get("qn").rsplit("::", 1)[1] if n is not None and n.get("k") == "Member" and (n.get("qn") or "").rsplit("::", 1)[0] == cls else None)
+        inits_cls = {}
+        for f in facts.functions:
+            if f.cls == cls:
+                inits_cls.update(single_def_inits(f))
         # reduction side
         red, red_unknown = {}, []
         for tgt, op, contrib, l in updates_of(by_full, g):
+            if tgt is None:
+                red_unknown.append("line %s: the callee `%s` receives the object(s) and is not followed" % (l, (contrib or {}).get("callee", "?").rsplit("::", 1)[-1]))
+                continue
             rt, pt_ = elem_root(tgt)
             F = field_of(rt)
             if F is None or strip(rt.get("b") or {}).get("k") != "This":
@@ -3672,8 +3749,15 @@ def rule_reduction(ck, extra, tag):
             src = None
             if contrib is not None:
                 rc, pc = elem_root(contrib)
-                if field_of(rc) is not None and strip(rc.get("b") or {}).get("k") == "Ref" and strip(rc["b"]).get("d") == other and pc == pt_:
+                cb_ = strip((rc or {}).get("b") or {})
+                hops = 0
+                while cb_.get("k") == "Ref" and cb_.get("dk") == "local" and cb_.get("d") in inits_cls and hops < 3:
+                    cb_ = strip(inits_cls[cb_["d"]])        # `const Info& o = other;`
+                    hops += 1
+                if field_of(rc) is not None and cb_.get("k") == "Ref" and cb_.get("d") == other and pc == pt_:
                     src = field_of(rc)
+                elif field_of(rc) is not None and (cb_.get("k") == "This" or (cb_.get("k") == "Un" and cb_.get("op") == "*" and strip(cb_["e"]).get("k") == "This")):
+                    src = "this->" + field_of(rc)       # combined with the object's own field
             red.setdefault(F, []).append((op, src, l))
         opaque = [n for n in g.nodes() if is_call(n) and any(strip(a).get("k") == "This" or (strip(a).get("k") == "Un" and strip(a).get("op") == "*" and strip(strip(a)["e"]).get("k") == "This") for a in n.get("a", []))]
         # accumulation side: every other function that updates a field of an object of this class
@@ -3686,6 +3770,8 @@ def rule_reduction(ck, extra, tag):
             if f.d.get("static") and f.cls == cls:
                 continue            # helpers are judged where they are called
             for tgt, op, contrib, l in updates_of(by_full, f):
+                if tgt is None:
+                    continue
                 rt, _p = elem_root(tgt)
                 F = field_of(rt)
                 if F is not None and op in ("SUM", "MAX", "MIN", "OTHER", "UNKNOWN"):
@@ -3710,8 +3796,10 @@ def rule_reduction(ck, extra, tag):
                 continue
             bad = []
             for op, src, l in rops:
-                if op not in ("SUM", "MAX", "MIN"):
-                    bad.append(("unknown", "line %s" % l))
+                if op not in ("SUM", "MAX", "MIN") or src is None:
+                    bad.append(("unknown", "line %s" % l))      # operator or operand not in a modelled form
+                elif src.startswith("this->"):
+                    bad.append(("field", "line %s combines %s with %s of the same object instead of the other object's" % (l, F, src)))
                 elif src != F:
                     bad.append(("field", "line %s combines %s with other.%s" % (l, F, src)))
                 elif op != aop:
@@ -4122,10 +4210,10 @@ def member_resets(fx, field):
         i = n.get("i")
         if i is None or fx.cfg.block_of(i) is None:
             continue
-        if n.get("k") == "MCall" and this_field(n.get("obj")) == field:
+        if n.get("k") == "MCall" and n.get("obj") is not None and this_field(resolve_alias(fx, n.get("obj"))) == field:
             if n.get("n") == "clear" and not n.get("a"):
                 out.append(i)
-            elif n.get("n") == "resize" and n.get("a") and strip(n["a"][0]).get("k") == "Int" and strip(n["a"][0])["v"] == "0":
+            elif n.get("n") == "resize" and n.get("a") and strip(n["a"][0]).get("k") == "Int" and int(strip(n["a"][0])["v"]) == 0:
                 out.append(i)
             elif n.get("n") in ("assign",):
                 out.append(i)
@@ -4178,7 +4266,8 @@ def rule_clear_resets(ck, facts):
     for f in order:
         fx = fxs[f]
         for n in fx.fn.nodes():
-            fld = this_field(n.get("obj")) if n.get("k") == "MCall" else None
+            # the receiver may be a reference alias of the member (`std::vector<Index>& tl = this->_thread_layers;`)
+            fld = this_field(resolve_alias(fx, n.get("obj"))) if n.get("k") == "MCall" and n.get("obj") is not None else None
             if fld is None or n.get("n") not in APPENDS or "vector" not in fx.fn.ntype(strip(n["obj"])):
                 continue
             if not reset_before(f, fx.pos(n), fld):
